@@ -1,1 +1,197 @@
+//! Decimal literal generators: every NR1/NR2/NR3 spelling of a value given as
+//! (sign, digit string, number of fraction digits).
+use proptest::prelude::*;
 
+#[derive(Clone, Debug)]
+pub struct Style {
+    pub plus: bool,
+    pub lead_zeros: u8,
+    pub trail_zeros: u8,
+    /// exponent shift (mantissa is divided by 10^shift), only written when != 0 or force_exp
+    pub exp_shift: i32,
+    pub force_exp: bool,
+    pub exp_upper: bool,
+    pub exp_plus: bool,
+    pub exp_lead_zeros: u8,
+    /// when the fraction is empty: 0 = "5", 1 = "5.", 2 = "5.0"
+    pub dot_mode: u8,
+    /// when the integer part is empty: false = ".5", true = "0.5"
+    pub zero_int: bool,
+}
+
+impl Style {
+    pub fn plain() -> Style {
+        Style {
+            plus: false,
+            lead_zeros: 0,
+            trail_zeros: 0,
+            exp_shift: 0,
+            force_exp: false,
+            exp_upper: false,
+            exp_plus: false,
+            exp_lead_zeros: 0,
+            dot_mode: 0,
+            zero_int: true,
+        }
+    }
+}
+
+pub fn style_strategy(max_shift: i32) -> impl Strategy<Value = Style> {
+    (
+        prop_oneof![4 => Just(false), 1 => Just(true)],
+        prop_oneof![6 => Just(0u8), 1 => 1u8..4],
+        prop_oneof![6 => Just(0u8), 1 => 1u8..4],
+        prop_oneof![5 => Just(0i32), 3 => -max_shift..=max_shift],
+        prop_oneof![5 => Just(false), 1 => Just(true)],
+        any::<bool>(),
+        any::<bool>(),
+        prop_oneof![6 => Just(0u8), 1 => 1u8..3],
+        0u8..3,
+        any::<bool>(),
+    )
+        .prop_map(|(plus, lead_zeros, trail_zeros, exp_shift, force_exp, exp_upper, exp_plus, exp_lead_zeros, dot_mode, zero_int)| Style {
+            plus,
+            lead_zeros,
+            trail_zeros,
+            exp_shift,
+            force_exp,
+            exp_upper,
+            exp_plus,
+            exp_lead_zeros,
+            dot_mode,
+            zero_int,
+        })
+}
+
+/// Render `(-1)^neg * digits * 10^-scale` in the given spelling. `digits` is a
+/// non-empty ASCII digit string.
+pub fn render(neg: bool, digits: &str, scale: u32, st: &Style) -> String {
+    debug_assert!(!digits.is_empty() && digits.bytes().all(|c| c.is_ascii_digit()));
+    let mut digits = digits.to_string();
+    let mut new_scale = scale as i64 + st.exp_shift as i64;
+    if new_scale < 0 {
+        digits.push_str(&"0".repeat((-new_scale) as usize));
+        new_scale = 0;
+    }
+    let ns = new_scale as usize;
+    let (mut int, mut frac) = if ns == 0 {
+        (digits.clone(), String::new())
+    } else if ns >= digits.len() {
+        (String::new(), format!("{}{}", "0".repeat(ns - digits.len()), digits))
+    } else {
+        (digits[..digits.len() - ns].to_string(), digits[digits.len() - ns..].to_string())
+    };
+    let mut out = String::new();
+    if neg {
+        out.push('-');
+    } else if st.plus {
+        out.push('+');
+    }
+    if int.is_empty() && (st.zero_int || frac.is_empty()) {
+        int.push('0');
+    }
+    if !int.is_empty() {
+        out.push_str(&"0".repeat(st.lead_zeros as usize));
+    }
+    out.push_str(&int);
+    if frac.is_empty() {
+        match st.dot_mode {
+            0 => {}
+            1 => {
+                if !int.is_empty() {
+                    out.push('.')
+                }
+            }
+            _ => {
+                frac.push('0');
+            }
+        }
+    }
+    if !frac.is_empty() {
+        out.push('.');
+        out.push_str(&frac);
+        out.push_str(&"0".repeat(st.trail_zeros as usize));
+    }
+    if st.exp_shift != 0 || st.force_exp {
+        out.push(if st.exp_upper { 'E' } else { 'e' });
+        if st.exp_shift < 0 {
+            out.push('-');
+        } else if st.exp_plus {
+            out.push('+');
+        }
+        out.push_str(&"0".repeat(st.exp_lead_zeros as usize));
+        out.push_str(&st.exp_shift.abs().to_string());
+    }
+    out
+}
+
+/// Fraction digit strings that sit on, just below and just above one half,
+/// plus .4 / .6 / nothing / zeros.
+pub fn frac_strategy() -> impl Strategy<Value = String> {
+    prop_oneof![
+        3 => Just(String::new()),
+        2 => Just("0".to_string()),
+        4 => Just("5".to_string()),
+        2 => Just("4".to_string()),
+        2 => Just("6".to_string()),
+        2 => Just("49".to_string()),
+        2 => Just("51".to_string()),
+        1 => Just("4999999".to_string()),
+        1 => Just("5000001".to_string()),
+        1 => Just("49999999999999999999".to_string()),
+        1 => Just("50000000000000000001".to_string()),
+        1 => Just("500000000000000000000000000000000000".to_string()),
+        1 => Just("499999999999999999999999999999999999".to_string()),
+        1 => Just("000000000000000000001".to_string()),
+        1 => Just("999999999999999999999".to_string()),
+        3 => "[0-9]{1,20}",
+    ]
+}
+
+/// A literal around the integer `n`: |n| + 0.frac with the sign of `n`
+/// (or an explicit minus for n = 0 when `neg_zero`).
+pub fn around_int(n: i128, neg_zero: bool, frac: &str, st: &Style) -> String {
+    let neg = n < 0 || (n == 0 && neg_zero);
+    let digits = format!("{}{}", n.unsigned_abs(), frac);
+    render(neg, &digits, frac.len() as u32, st)
+}
+
+/// Completely random literal: 1..40 significant digits, exponent in a wide range.
+pub fn wide_literal() -> impl Strategy<Value = String> {
+    (any::<bool>(), "[0-9]{1,40}", 0u32..40, -420i32..420, style_strategy(0)).prop_map(|(neg, digits, scale, exp, mut st)| {
+        st.exp_shift = exp;
+        render(neg, &digits, scale.min(digits.len() as u32 + 5), &st)
+    })
+}
+
+/// Spellings of zero.
+pub fn zero_literal() -> impl Strategy<Value = String> {
+    (any::<bool>(), prop_oneof![Just("0"), Just("00"), Just("000000")], 0u32..4, style_strategy(30)).prop_map(|(neg, digits, scale, st)| render(neg, digits, scale, &st))
+}
+
+#[cfg(test)]
+mod tests {
+    use super::*;
+    #[test]
+    fn spellings() {
+        let mut st = Style::plain();
+        assert_eq!(render(false, "25", 1, &st), "2.5");
+        st.exp_shift = 1;
+        assert_eq!(render(false, "25", 1, &st), "0.25e1");
+        st.zero_int = false;
+        assert_eq!(render(true, "25", 1, &st), "-.25e1");
+        st.exp_shift = -2;
+        st.exp_upper = true;
+        assert_eq!(render(false, "25", 1, &st), "250E-2");
+        st.exp_shift = 0;
+        st.dot_mode = 1;
+        assert_eq!(render(false, "7", 0, &st), "7.");
+        st.dot_mode = 2;
+        assert_eq!(render(false, "7", 0, &st), "7.0");
+        assert_eq!(render(false, "0", 0, &st), "0.0");
+        st.dot_mode = 0;
+        assert_eq!(render(true, "0", 0, &st), "-0");
+        assert_eq!(around_int(-128, false, "4", &Style::plain()), "-128.4");
+        assert_eq!(around_int(0, true, "", &Style::plain()), "-0");
+    }
+}
